@@ -63,6 +63,7 @@ func checkC18(c *Ctx) (string, error) {
 	c.Rule("R18.1", "mergeConfig merges every Config field exactly once with the shape its kind requires (scalar: override when set; list: dst first, append src)", 20)
 	c.Rule("R18.2", "resolveInheritance merges parents in Inherits order, then the description itself, and propagates a failed parent load", 4)
 	c.Rule("R18.3", "the recursion Load->resolveInheritance->Load is cut by an in-progress test that returns an error", 1)
+	c.Rule("R18.6", "the configuration under construction owns its list storage (never a struct copy of a cached description)", 1)
 	c.Rule("R18.4", "shipped targets/*.json conform to Config (value types, known parents, acyclic inheritance)", 100)
 	c.Rule("R18.5", "no map iteration order reaches a list-valued field or returned list", 1)
 
@@ -164,6 +165,37 @@ func checkC18(c *Ctx) (string, error) {
 		})
 	}
 	return "C18 (structural): merge completeness/shape of targets.Loader.mergeConfig over all Config fields; order and error propagation in resolveInheritance on all CFG paths; recursion guard on the Load/resolveInheritance cycle; conformance of every shipped targets/*.json to the decoding struct incl. acyclic, resolvable inheritance; no map order dependence. NOT decided: useTarget's flag derivation.", nil
+}
+
+// freshConfigExpr returns "" if e is &T{...}/new(T) with no slice-valued element, else the reason.
+func freshConfigExpr(info *types.Info, e ast.Expr) string {
+	e = ast.Unparen(e)
+	if u, ok := e.(*ast.UnaryExpr); ok && u.Op == token.AND {
+		if cl, ok := ast.Unparen(u.X).(*ast.CompositeLit); ok {
+			for _, el := range cl.Elts {
+				v := el
+				if kv, ok := el.(*ast.KeyValueExpr); ok {
+					v = kv.Value
+				}
+				if t := info.TypeOf(v); t != nil {
+					if _, isSlice := t.Underlying().(*types.Slice); isSlice {
+						return "literal initialises a list field from " + exprStr(v)
+					}
+				}
+			}
+			return ""
+		}
+		return "address of non-literal " + exprStr(u.X)
+	}
+	if call, ok := e.(*ast.CallExpr); ok {
+		if id, ok := call.Fun.(*ast.Ident); ok && id.Name == "new" {
+			return ""
+		}
+	}
+	if isNilIdent(info, e) {
+		return ""
+	}
+	return "assigned from " + exprStr(e)
 }
 
 func stmtHead(s ast.Stmt) string {
@@ -368,6 +400,53 @@ func checkResolveInheritance(c *Ctx, p *packages.Package, ri *ast.FuncDecl) {
 		c.Check(errReturned && !reachedOnErr, "R18.2", "failed parent load returns the error", loadCall.Pos(),
 			"err != nil edge returns a non-nil error before any merge", "a failed parent load does not end resolution with an error")
 	}
+	// (d) ownership: the configuration being built must be fresh storage. A struct copy of a parent
+	// (*parent) shares the parent's list backing arrays with the loader cache, so later appends write
+	// into another description's lists.
+	for _, mcall := range []*ast.CallExpr{parentMerge, ownMerge} {
+		if mcall == nil || len(mcall.Args) < 1 {
+			continue
+		}
+		id, ok := ast.Unparen(mcall.Args[0]).(*ast.Ident)
+		if !ok {
+			c.Undecided("R18.6", "merge destination is fresh storage", mcall.Pos(), "destination is not a local variable: "+exprStr(mcall.Args[0]))
+			continue
+		}
+		dstObj := info.Uses[id]
+		fresh, why := true, ""
+		ndefs := 0
+		ast.Inspect(ri.Body, func(n ast.Node) bool {
+			as, ok := n.(*ast.AssignStmt)
+			if !ok {
+				return true
+			}
+			for i, l := range as.Lhs {
+				lid, ok := l.(*ast.Ident)
+				if !ok {
+					continue
+				}
+				o := info.Defs[lid]
+				if o == nil {
+					o = info.Uses[lid]
+				}
+				if o != dstObj || len(as.Rhs) != len(as.Lhs) {
+					continue
+				}
+				ndefs++
+				if w := freshConfigExpr(info, as.Rhs[i]); w != "" {
+					fresh, why = false, w
+				}
+			}
+			return true
+		})
+		if ndefs == 0 {
+			fresh, why = false, "no local definition of "+id.Name
+		}
+		c.Check(fresh, "R18.6", "merge destination "+id.Name+" is fresh storage", mcall.Pos(),
+			"built from a fresh &Config{...} literal without list fields", "result may share list storage with a cached description ("+why+"): appends for one target leak into its siblings")
+		break
+	}
+
 	// (c) own merge after loop dominates every successful return of the merged result
 	if ownMerge == nil {
 		c.Bad("R18.2", "own description merged after all parents", loop.End(), "no mergeConfig of the description itself after the parent loop")
@@ -876,6 +955,8 @@ func init() {
 		Old: "\tl.resolving[raw.Name] = true\n", New: "", Expect: "R18.3 cycle"})
 	addMutant(Mutant{Prop: "C18", Name: "cycle-mark-leaks", File: "internal/targets/loader.go",
 		Old: "\tdefer delete(l.resolving, raw.Name)\n", New: "", Expect: "R18.3 cycle"})
+	addMutant(Mutant{Prop: "C18", Name: "result-aliases-parent", File: "internal/targets/loader.go",
+		Old: "\t\t// Merge parent into result\n\t\tl.mergeConfig(result, parent)\n", New: "\t\tif result.LLVMTarget == \"\" && len(result.CFlags) == 0 {\n\t\t\tbase := *parent\n\t\t\tbase.Name = raw.Name\n\t\t\tresult = &base\n\t\t\tcontinue\n\t\t}\n\t\tl.mergeConfig(result, parent)\n", Expect: "R18.6"})
 	addMutant(Mutant{Prop: "C18", Name: "merge-drop-field", File: "internal/targets/loader.go",
 		Old: "\tif src.CodeModel != \"\" {\n\t\tdst.CodeModel = src.CodeModel\n\t}\n", New: "", Expect: "R18.1 Config.CodeModel"})
 	addMutant(Mutant{Prop: "C18", Name: "merge-cross-field", File: "internal/targets/loader.go",
